@@ -33,7 +33,12 @@ extern struct verif_ti g__ZTISt13runtime_error, g__ZTISt12out_of_range, g__ZTISt
 static struct verif_ti ti_foreign = {0, "7foreign"};
 char* __VERIF_throw_new(char* tinfo, uint64_t size);
 #define TI_EVAL_ERROR ((char*)&g__ZTIN10chaiscript9exception10eval_errorE)
+#ifdef NO_BV_TI       /* the unit under test never names Boxed_Value's typeinfo: a stand-in object serves as 'some other type' */
+static struct verif_ti ti_bv_local = {0, "*bv"};
+#define TI_BOXED_VALUE ((char*)&ti_bv_local)
+#else
 #define TI_BOXED_VALUE ((char*)&g__ZTIN10chaiscript11Boxed_ValueE)
+#endif
 static void child_throw(int kind, char* ti_eval_error, char* ti_boxed_value) {
   char* ti = kind == B_EVAL_ERROR ? ti_eval_error : kind == B_RUNTIME ? (char*)&g__ZTISt13runtime_error : kind == B_OOR ? (char*)&g__ZTISt12out_of_range :
              kind == B_STDEXC ? (char*)&g__ZTISt9exception : kind == B_BV ? ti_boxed_value : (char*)&ti_foreign;
